@@ -13,6 +13,7 @@ incl. a base class at non-zero offset) and by compile probes of minimal-requirem
 -/
 import SvModel.Properties.Core
 import SvModel.Proofs.InputRange
+import SvModel.Spec.Convert
 
 namespace SvModel.C13
 open SvModel Gen
@@ -75,5 +76,49 @@ theorem trivial_twin_append_range (cfg : Cfg) (c : Nat) (vs : List α) (w1 w2 w1
 theorem trivial_no_element_faults (cfg : Cfg) :
     (twin cfg).tCopy = false ∧ (twin cfg).tMove = false ∧ (twin cfg).tCasg = false ∧ (twin cfg).tMasg = false ∧ (twin cfg).tVctor = false := by
   refine ⟨rfl, rfl, rfl, rfl, rfl⟩
+
+/-! ### the conversion clause: the header's memcpy-eligibility verdicts (table regenerated by the compiler from the real
+    header on every run) against the model of `static_cast` on object representations (Spec/Convert.lean) -/
+open SvModel.Conv in
+/-- a row of the table is in order: whenever the header selects a bulk copy for the pair (assignment or construction,
+    from a prvalue, an lvalue or a const lvalue), the conversion provably preserves every object representation -/
+def rowSound (r : McRow) : Bool := !(r.asg || r.ctor) || ReprPreserving (r.fromName == r.toName) r.from_ r.to
+
+/-- EVERY pair the header deems memcpy-able is representation-preserving (kernel evaluation over the whole table) -/
+theorem memcpy_table_sound : mcTable.all rowSound = true := by decide +kernel
+
+open SvModel.Conv in
+/-- … hence, for such a pair of distinct integral / enumeration types, copying the bytes of ANY valid source object
+    yields exactly `static_cast<To>(source)` — for every representation, not only the sampled ones -/
+theorem memcpy_is_static_cast (r : McRow) (hr : r ∈ mcTable) (hsel : (r.asg || r.ctor) = true) (hne : (r.fromName == r.toName) = false)
+    (x : Nat) (hx : ValidRep r.from_ x) : convInt r.from_ r.to x = x := by
+  have h := List.all_eq_true.mp memcpy_table_sound r hr
+  unfold rowSound at h
+  rw [hsel, hne] at h
+  exact reprPreserving_sound r.from_ r.to x (by simpa using h) hx
+
+open SvModel.Conv in
+/-- the model of static_cast agrees with the COMPILER's static_cast on every sampled bit pattern of every
+    integral / enumeration pair of the table (validation of Spec/Convert.lean against the real thing) -/
+theorem convert_model_matches_compiler :
+    (mcTable.filter fun r => decide (r.from_.kind ≤ 1) && decide (r.to.kind ≤ 1)).all
+      (fun r => r.identBySamples == identOnSamples r.from_ r.to) = true := by decide +kernel
+
+/-- pointers: a bulk copy is selected only for implicit conversions that do not adjust the address (cv-qualification,
+    conversion to void *); never for a base class, whose subobject may live at a non-zero offset -/
+theorem memcpy_ptr_table_sound :
+    mcPtrTable.all (fun r => !(r.asg || r.ctor) || (r.convertible && decide (r.offset = 0))) = true := by decide +kernel
+
+/-- the table really contains a base at a non-zero offset (so the previous theorem is not vacuous), and it is refused -/
+example : mcPtrTable.any (fun r => r.convertible && decide (r.offset ≠ 0) && !(r.asg || r.ctor)) = true := by decide +kernel
+
+/-- iterators: only iterators that address contiguous storage are classified contiguous (reverse iterators, deque,
+    list, stream and vector<bool> iterators are not) -/
+theorem contiguous_iterator_table_sound : mcItTable.all (fun r => !r.deemed || r.truly) = true := by decide +kernel
+
+/-- non-vacuity: the table contains eligible converting pairs (e.g. int → unsigned), refused narrowing-to-bool pairs
+    (unsigned char → bool) and refused width-changing pairs -/
+example : mcTable.any (fun r => (r.asg && r.ctor) && !(r.fromName == r.toName)) = true := by decide +kernel
+example : mcTable.any (fun r => r.fromName == "unsigned_char" && r.toName == "bool" && !(r.asg || r.ctor) && !r.identBySamples) = true := by decide +kernel
 
 end SvModel.C13
